@@ -482,4 +482,11 @@ theorem shrinkLoop_terminates (obs : Nat → Nat) (count : Nat) : ∀ f k size, 
         subst hs; omega
       exact ih _ _ (by omega)
     · exact ⟨_, rfl⟩
+/-- the growth `check_resize` derives from a 32-bit chain length is at most 32, so `size << growth`
+never shifts by 64 or more -/
+theorem orderU32_le (x : Nat) : orderU32 x ≤ 32 := by
+  unfold orderU32
+  rw [fls_lt_iff]
+  have := Nat.mod_lt x (Nat.two_pow_pos 32)
+  omega
 end UrcuVerif.Lfht.Resize
